@@ -181,11 +181,14 @@ def gen_case(rng, tier, combo=None):
     case["zero_noise"] = zero and em in ("gaussian", "isoline", "ga_gaussian", "ga_isoline", "gradop")
     if em in ("es", "gae"):
         case["es"] = es
-        if es == "lm_ma_es":
+        if es in ("lm_ma_es", "pycma_es"):
+            # pycma itself rejects a one-dimensional problem with array bounds ("not yet initialized (dimension needed)"): external
+            # library limitation, not generated
             dim = max(dim, 2)
             x0 = (x0 + [dec(rng, -2, 2)])[:dim] if len(x0) < dim else x0
             case["dim"], case["x0"] = dim, x0
-            batch = rng.randint(1, dim) if em == "es" else rng.randint(1, MDIM + 1)
+            if es == "lm_ma_es":
+                batch = rng.randint(1, dim) if em == "es" else rng.randint(1, MDIM + 1)
         if es in ("openai_es", "pycma_es"):
             batch = max(batch, 2)  # OpenAI-ES documents batch_size > 1; pycma itself rejects popsize 1
         case["mirror"] = False
